@@ -467,6 +467,11 @@ class Generator:
         self.repo = repo
         self.cdir = cdir
         self.specs, self.raws, self.prelude = load_contracts(cdir)
+        # headers are matched exactly first; if the bounds of an impl header were edited, fall back to the header
+        # without its generic parameter list (self type / trait only)
+        self.loose = {}
+        for (f, h, n), sp in list(self.specs.items()):
+            self.loose.setdefault((f, short_impl(h), n), []).append(sp)
         self.srcs = {}
         self.masks = {}
         self.items = {}
@@ -485,6 +490,20 @@ class Generator:
                 raise ExtractError('cannot read %s: %s' % (rel, e))
         extra = sorted(set(self.list_src()) - set(SRC_ORDER) - {'lib.rs'})
         self.extra_files = extra
+
+    def rekey(self, rel, header):
+        """If no contract names `header` exactly, re-key the contracts whose loose header matches."""
+        if any(k[0] == rel and k[1] == header for k in self.specs):
+            return
+        sh = short_impl(header)
+        for (f, h, n), sp in list(self.specs.items()):
+            if f == rel and h != header and short_impl(h) == sh and not sp.used and h != '-' and not h.startswith('trait '):
+                # only if the exact header no longer exists in the file
+                if not any(it.kind == 'impl' and it.name == h for it in self.items[rel]):
+                    del self.specs[(f, h, n)]
+                    sp.impl = header
+                    self.specs[(f, header, n)] = sp
+                    self.rewrites.append(('header', sp.ident, 'impl header bounds changed: matched loosely'))
 
     def list_src(self):
         res = []
@@ -601,6 +620,7 @@ class Generator:
     def emit_impl(self, out, rel, it, unit, vacuity):
         s = self.srcs[rel]
         header = it.name
+        self.rekey(rel, header)
         fns = [c for c in it.children if c.kind == 'fn']
         if fns:
             have = [c for c in fns if (rel, header, c.name) in self.specs and c.name]
